@@ -32,6 +32,9 @@ Proof.
   eapply reach_step; [apply Hsub; exact He | exact IH].
 Qed.
 
+Lemma reach_inv es x r : reach es x r -> x = r \/ exists v p, In (x, v, p) es.
+Proof. intros H. destruct H as [n | u v w p He _]; [now left | right; eauto]. Qed.
+
 (** the ancestor set depends on the edge SET only *)
 Corollary ancestors_incl_ext es es' roots x :
   (forall e, In e es <-> In e es') -> In x (ancestors_incl es roots) <-> In x (ancestors_incl es' roots).
@@ -121,10 +124,10 @@ Proof.
   induction nbunch as [|v r IH]; intros seen explored order res Hsub H x Hx; simpl in H.
   - inversion H; subst. apply in_rev. rewrite rev_involutive. destruct Hx as [[]|Hx]. now apply Hsub.
   - destruct (mem v explored) eqn:Ev.
-    + eapply IH; eauto. destruct Hx as [[<-|Hx]|Hx]; auto. right. now apply mem_In.
+    + apply (IH seen explored order res Hsub H). destruct Hx as [[<-|Hx]|Hx]; auto. right. now apply mem_In.
     + destruct (dfs fuel es [v] seen explored order) as [[[seen' explored'] order']|] eqn:Ed; simpl in H; [|discriminate].
       destruct (dfs_complete _ _ _ _ _ _ _ _ _ Hsub Ed) as [A [B C]].
-      eapply IH; eauto. destruct Hx as [[<-|Hx]|Hx]; auto. right. apply C. now left.
+      apply (IH seen' explored' order' res A H). destruct Hx as [[<-|Hx]|Hx]; auto. right. apply C. now left.
 Qed.
 
 Lemma sort_order_complete g so n : sort_order g = Ok so -> In n (map fst (c_nodes g)) -> In n so.
@@ -145,7 +148,7 @@ Proof.
   inversion H; subst. clear H.
   destruct (get_execution_order_spec _ _ _ _ CacheOK_empty Eo) as [Hnd _].
   destruct (run_order_sound g order g [] g' log (Inv_refl g) Hnd Er) as [_ Hlog]. simpl in Hlog.
-  pose proof (get_execution_order_cached g empty_cache order c1 (CacheConsistent_empty g) Eo) as Ho.
+  pose proof (get_execution_order_cached g empty_cache order _ (CacheConsistent_empty g) Eo) as Ho.
   unfold order_of in Ho. subst log. rewrite filter_In.
   destruct (needed_of g) as [|n0 nr] eqn:En.
   - inversion Ho; subst. split; [intros [[] _] | intros [_ [r [[] _]]]].
@@ -182,4 +185,522 @@ Proof.
     rewrite Ho. simpl. apply andb_true_iff. split.
     + induction xs as [|x xs IHx]; [reflexivity|]. rewrite IH, IHx. reflexivity.
     + induction ks as [|[s x] ks IHk]; [reflexivity|]. rewrite String.eqb_refl, IH, IHk. reflexivity.
+Qed.
+
+Lemma In_pair_lookup {A} n (a : A) l : NoDup (map fst l) -> In (n, a) l -> lookup n l = Some a.
+Proof.
+  induction l as [|[m b] r IH]; intros Hnd Hin; [destruct Hin|]. simpl in *.
+  inversion Hnd as [|? ? Hm Hr]; subst. destruct Hin as [Heq|Hin].
+  - inversion Heq; subst. now rewrite String.eqb_refl.
+  - destruct (String.eqb n m) eqn:E; [|now apply IH]. apply String.eqb_eq in E. subst.
+    exfalso. apply Hm. apply in_map_iff. exists (m, a). auto.
+Qed.
+
+(** ---- the requested outputs are preserved by every compiler pass and loader ---- *)
+Lemma add_cedge_outputs u v p g : c_outputs (add_cedge u v p g) = c_outputs g.
+Proof.
+  unfold add_cedge, ensure_node, add_node. simpl. destruct (has u (c_nodes g)); simpl; destruct (has v _); reflexivity.
+Qed.
+
+Lemma copy_observed_edges_outputs src obl n g : c_outputs (copy_observed_edges src obl n g) = c_outputs g.
+Proof.
+  unfold copy_observed_edges. generalize (preds (s_edges src) n) as l. intros l. revert g.
+  induction l as [|pp r IH]; intros g; simpl; [reflexivity|]. rewrite IH. apply add_cedge_outputs.
+Qed.
+
+Lemma instr_fold_outputs fl inode : forall l g, c_outputs (fold_left (instr_step fl inode) l g) = c_outputs g.
+Proof.
+  induction l as [|ns r IH]; intros g; simpl; [reflexivity|]. rewrite IH.
+  unfold instr_step. destruct (fl (snd ns)); [apply add_cedge_outputs | reflexivity].
+Qed.
+
+Lemma G4of_outputs src g : c_outputs (G4of src g) = c_outputs g.
+Proof. unfold G4of. now rewrite !compile_instruction_fold, !instr_fold_outputs. Qed.
+
+Lemma reduce_fold_outputs keep : forall l g, c_outputs (fold_left (reduce_step keep) l g) = c_outputs g.
+Proof.
+  induction l as [|nc r IH]; intros g; simpl; [reflexivity|]. rewrite IH.
+  unfold reduce_step. destruct (mem (fst nc) keep); reflexivity.
+Qed.
+
+Lemma set_output_outputs n v b g : c_outputs (set_output n v b g) = c_outputs g.
+Proof. unfold set_output. destruct (lookup n (c_nodes g)); reflexivity. Qed.
+
+Lemma obs_fold_outputs : forall l g, c_outputs (fold_left obs_step l g) = c_outputs g.
+Proof. induction l as [|nv r IH]; intros g; simpl; [reflexivity|]. rewrite IH. apply set_output_outputs. Qed.
+
+Lemma load_runtime_outputs g : c_outputs (load_runtime g) = c_outputs g.
+Proof. unfold load_runtime. now rewrite !set_output_outputs. Qed.
+
+(** the PoolLoader adds an output only for a store that holds nothing; [generate] supplies values only *)
+Lemma load_pool_outputs_some : forall p g,
+  (forall nv, In nv p -> snd nv <> None) -> c_outputs (load_pool p g) = c_outputs g.
+Proof.
+  induction p as [|[k ov] r IH]; intros g H; [reflexivity|].
+  rewrite load_pool_cons, IH; [|intros nv Hnv; apply H; now right].
+  unfold pool_step. cbn [fst snd]. destruct (has k (c_nodes g)); [|reflexivity].
+  destruct ov as [v|]; [apply set_output_outputs|]. exfalso. apply (H (k, None)); [now left | reflexivity].
+Qed.
+
+Lemma load_outputs W g : c_outputs (load (wp W) g) = c_outputs g.
+Proof.
+  unfold load. rewrite load_pool_outputs_some, load_runtime_outputs, load_observed_fold, obs_fold_outputs; [reflexivity|].
+  intros nv Hin. unfold wp in Hin. apply in_map_iff in Hin. destruct Hin as [x [<- _]]. discriminate.
+Qed.
+
+Lemma has_load_pool m : forall p g, has m (c_nodes (load_pool p g)) = has m (c_nodes g).
+Proof. induction p as [|nv r IH]; intros g; [reflexivity|]. rewrite load_pool_cons, IH. apply pool_step_has. Qed.
+
+Lemma has_load m p g : has m (c_nodes (load p g)) = has m (c_nodes g).
+Proof. unfold load. now rewrite has_load_pool, has_load_runtime, has_load_observed. Qed.
+
+(** ---- the ObservedCompiler keeps the outputs and lists every observed-using node ---- *)
+Lemma compile_observed_facts src : forall topo ob us g g' ob' us',
+  compile_observed src topo ob us g = Ok (g', ob', us') ->
+  c_outputs g' = c_outputs g
+  /\ forall n, In n us \/ (In n topo /\ exists st, lookup n (s_nodes src) = Some st
+                                          /\ s_observable st = false /\ s_uses_observed st = true) -> In n us'.
+Proof.
+  induction topo as [|m r IH]; intros ob us g g' ob' us' H; simpl in H.
+  - inversion H; subst. split; [reflexivity|]. intros n [Hn|[[] _]]. exact Hn.
+  - destruct (lookup m (s_nodes src)) as [st|] eqn:Hl; [|discriminate].
+    destruct (s_observable st) eqn:Eo.
+    + destruct (make_observed_copy m None g) as [g1|] eqn:Em; simpl in H; [|discriminate].
+      destruct (make_observed_copy_inv _ _ _ _ Em) as [_ [c [-> _]]].
+      destruct (IH _ _ _ _ _ _ H) as [A B]. split.
+      * rewrite A. destruct (s_stochastic st); [reflexivity | now rewrite copy_observed_edges_outputs].
+      * intros n [Hn|[[<-|Hn] Hst]]; apply B; auto.
+        destruct Hst as [st' [Hl' [Ho' _]]]. congruence.
+    + destruct (s_uses_observed st) eqn:Eu.
+      * destruct (make_observed_copy m (Some OpTuple) g) as [g1|] eqn:Em; simpl in H; [|discriminate].
+        destruct (make_observed_copy_inv _ _ _ _ Em) as [_ [c [-> _]]].
+        destruct (IH _ _ _ _ _ _ H) as [A B]. split.
+        -- rewrite A. destruct (s_stochastic st); rewrite ?copy_observed_edges_outputs, add_cedge_outputs; reflexivity.
+        -- intros n [Hn|[[<-|Hn] Hst]]; apply B; auto; left; apply in_app_iff; [now left | right; now left].
+      * destruct (IH _ _ _ _ _ _ H) as [A B]. split; [exact A|].
+        intros n [Hn|[[<-|Hn] Hst]]; apply B; auto.
+        destruct Hst as [st' [Hl' [_ Hu']]]. congruence.
+Qed.
+
+Lemma compile_inv2 src outs g :
+  wfsrc src -> compile src outs = Ok g ->
+  exists cn g1 uses,
+    compile_outputs (s_nodes src) = Ok cn /\ topo_ok src = true
+    /\ CO src cn (topo_order src) g1 /\ c_outputs g1 = outs
+    /\ check_stochastic src g1 uses = Ok tt
+    /\ (forall n st, lookup n (s_nodes src) = Some st -> s_observable st = false -> s_uses_observed st = true -> In n uses)
+    /\ g = compile_reduce (G4of src g1).
+Proof.
+  intros Hwf H. unfold compile in H.
+  destruct (compile_outputs (s_nodes src)) as [cn|] eqn:Ec; simpl in H; [|discriminate].
+  fold (topo_ok src) in H. destruct (topo_ok src) eqn:Et; simpl in H; [|discriminate].
+  fold (G0 src cn outs) in H.
+  destruct (compile_observed src (topo_order src) [] [] (G0 src cn outs)) as [[[g1 obl] uses]|] eqn:Eo;
+    simpl in H; [|discriminate].
+  destruct (check_stochastic src g1 uses) as [[]|] eqn:Ek; simpl in H; [|discriminate].
+  inversion H. exists cn, g1, uses.
+  destruct (compile_observed_facts _ _ _ _ _ _ _ _ Eo) as [A B].
+  split; [reflexivity|]. split; [reflexivity|]. split; [|split; [exact A|split; [exact Ek|split; [|reflexivity]]]].
+  - apply (compile_observed_spec src cn Hwf Ec (topo_order src) [] (G0 src cn outs) [] [] g1 obl uses).
+    + apply CO_init.
+    + simpl. apply topo_order_NoDup. exact (wf_nodup _ Hwf).
+    + reflexivity.
+    + intros n Hn u p Hup. simpl. unfold topo_ok in Et. rewrite forallb_forall in Et.
+      specialize (Et n Hn). rewrite forallb_forall in Et. specialize (Et (u, p) Hup). now apply mem_In.
+    + exact Eo.
+  - intros n st Hl Ho Hu. apply B. right. split; [eapply t_in; eauto | eauto].
+Qed.
+
+(** ---- the twin edges of the specification are the edges the ObservedCompiler adds ---- *)
+Lemma twin_edges_char src e :
+  In e (twin_edges src) <-> exists n st, In (n, st) (s_nodes src) /\ In e (twin_edges_st src n st).
+Proof.
+  unfold twin_edges. rewrite in_app_iff, !in_flat_map. split.
+  - intros [[[n st] [Hin He]] | [[n st] [Hin He]]]; exists n, st; (split; [exact Hin|]);
+      unfold twin_edges_st; apply in_app_iff; cbn [fst snd] in He.
+    + right. exact He.
+    + left. rewrite andb_comm. exact He.
+  - intros [n [st [Hin He]]]. unfold twin_edges_st in He. apply in_app_iff in He. destruct He as [He|He].
+    + right. exists (n, st). split; [exact Hin|]. cbn [fst snd]. rewrite andb_comm. exact He.
+    + left. exists (n, st). split; [exact Hin|]. exact He.
+Qed.
+
+Lemma TW_char src e : NoDup (map fst (s_nodes src)) ->
+  (In e (flat_map (twin_edges_of src) (topo_order src))
+   <-> exists n st, In (n, st) (s_nodes src) /\ In e (twin_edges_st src n st)).
+Proof.
+  intros Hnd. rewrite in_flat_map. split.
+  - intros [n [Hn He]]. unfold twin_edges_of in He. destruct (lookup n (s_nodes src)) as [st|] eqn:El; [|destruct He].
+    exists n, st. split; [now apply lookup_In_pair | exact He].
+  - intros [n [st [Hin He]]]. exists n. split.
+    + apply topo_order_In_rev. apply in_map_iff. exists (n, st). auto.
+    + unfold twin_edges_of. now rewrite (In_pair_lookup _ _ _ Hnd Hin).
+Qed.
+
+(** ---- nets whose edges join existing nodes ---- *)
+Definition eclosed (g : cnet) : Prop :=
+  forall e, In e (c_edges g) -> has (e_src e) (c_nodes g) = true /\ has (e_dst e) (c_nodes g) = true.
+
+Lemma has_ensure_mono m n g : has m (c_nodes g) = true -> has m (c_nodes (ensure_node n g)) = true.
+Proof. intros H. unfold has. rewrite ensure_node_lookup by exact H. exact H. Qed.
+
+Lemma has_ensure_self n g : has n (c_nodes (ensure_node n g)) = true.
+Proof.
+  unfold ensure_node. destruct (has n (c_nodes g)) eqn:E; [exact E|]. unfold has. now rewrite lookup_add_node_same.
+Qed.
+
+Lemma eclosed_add_cedge u v p g : eclosed g -> eclosed (add_cedge u v p g).
+Proof.
+  intros Hc e He. rewrite c_edges_add_cedge in He.
+  change (c_nodes (add_cedge u v p g)) with (c_nodes (ensure_node v (ensure_node u g))).
+  apply In_add_edge in He. destruct He as [->|He].
+  - unfold e_src, e_dst. cbn [fst snd]. split; [apply has_ensure_mono; apply has_ensure_self | apply has_ensure_self].
+  - destruct (Hc e He) as [H1 H2]. split; apply has_ensure_mono; now apply has_ensure_mono.
+Qed.
+
+Lemma eclosed_instr_fold fl inode : forall l g, eclosed g -> eclosed (fold_left (instr_step fl inode) l g).
+Proof.
+  induction l as [|ns r IH]; intros g H; simpl; [exact H|]. apply IH.
+  unfold instr_step. destruct (fl (snd ns)); [now apply eclosed_add_cedge | exact H].
+Qed.
+
+Lemma eclosed_remove n g : eclosed g -> eclosed (remove_cnode n g).
+Proof.
+  intros Hc e He. simpl in He. apply filter_In in He. destruct He as [He Hb].
+  apply andb_true_iff in Hb. destruct Hb as [H1 H2]. apply negb_true_iff in H1, H2. apply String.eqb_neq in H1, H2.
+  destruct (Hc e He) as [A B]. unfold has in *. simpl. now rewrite !lookup_remove_other.
+Qed.
+
+Lemma eclosed_reduce_fold keep : forall l g, eclosed g -> eclosed (fold_left (reduce_step keep) l g).
+Proof.
+  induction l as [|nc r IH]; intros g H; simpl; [exact H|]. apply IH.
+  unfold reduce_step. destruct (mem (fst nc) keep); [exact H | now apply eclosed_remove].
+Qed.
+
+(** the reduction removes only edges with an end outside the kept set *)
+Lemma reduce_fold_edge_sub keep e : forall l g,
+  In e (c_edges (fold_left (reduce_step keep) l g)) -> In e (c_edges g).
+Proof.
+  induction l as [|nc r IH]; intros g H; simpl in H; [exact H|]. apply IH in H.
+  unfold reduce_step in H. destruct (mem (fst nc) keep); [exact H|]. simpl in H. apply filter_In in H. tauto.
+Qed.
+
+Lemma reduce_fold_edge_kept keep e : mem (e_src e) keep = true -> mem (e_dst e) keep = true ->
+  forall l g, In e (c_edges g) -> In e (c_edges (fold_left (reduce_step keep) l g)).
+Proof.
+  intros Hs Hd. induction l as [|nc r IH]; intros g H; simpl; [exact H|]. apply IH.
+  unfold reduce_step. destruct (mem (fst nc) keep) eqn:E; [exact H|]. simpl. apply filter_In. split; [exact H|].
+  apply andb_true_iff. split; apply negb_true_iff; apply String.eqb_neq; intros Heq; rewrite Heq in E; congruence.
+Qed.
+
+(** ---- the requested outputs the property speaks about ---- *)
+Definition outputs_wf (src : snet) (outs : list name) : Prop :=
+  forall o, In o outs ->
+    has o (s_nodes src) = true
+    \/ exists x st, lookup x (s_nodes src) = Some st /\ o = observed_name x
+                    /\ (s_observable st = true \/ s_uses_observed st = true).
+
+Definition outputs_wf_b (src : snet) (outs : list name) : bool :=
+  forallb (fun o => has o (s_nodes src)
+                    || existsb (fun x : name * sstate =>
+                                  String.eqb (observed_name (fst x)) o
+                                  && (s_observable (snd x) || s_uses_observed (snd x))) (s_nodes src))
+          outs.
+
+Lemma outputs_wf_b_sound src outs :
+  NoDup (map fst (s_nodes src)) -> outputs_wf_b src outs = true -> outputs_wf src outs.
+Proof.
+  intros Hnd H o Ho. unfold outputs_wf_b in H. rewrite forallb_forall in H. specialize (H o Ho).
+  apply orb_true_iff in H. destruct H as [H|H]; [now left|]. right.
+  apply existsb_exists in H. destruct H as [[x st] [Hin H]]. cbn [fst snd] in H.
+  apply andb_true_iff in H. destruct H as [H1 H2]. apply String.eqb_eq in H1. apply orb_true_iff in H2.
+  exists x, st. split; [now apply In_pair_lookup|]. split; [now symmetry | exact H2].
+Qed.
+
+(** ---- the loaded net of a compiled well-formed source net, node by node ---- *)
+Section Model.
+  Variables (src : snet) (W : list (name * value)) (outs : list name) (cn : list (name * cnode)) (g1 : cnet).
+  Hypothesis Hwf : wfsrc src.
+  Hypothesis HWnd : NoDup (map fst W).
+  Hypothesis HWi : forall k, In k (map fst W) -> ~ In k inames.
+  Hypothesis Hcn : compile_outputs (s_nodes src) = Ok cn.
+  Hypothesis Hco : CO src cn (topo_order src) g1.
+  Hypothesis Hout1 : c_outputs g1 = outs.
+
+  Local Notation g4 := (G4of src g1).
+  Local Notation gr := (compile_reduce (G4of src g1)).
+  Local Notation lg := (load (wp W) (compile_reduce (G4of src g1))).
+  Local Notation keep := (ancestors_incl (c_edges (G4of src g1)) outs).
+  Local Notation cut := (filter (fun e => negb (given src W (e_dst e))) (dep_edges src)).
+
+  (** the user-level dependency edges are the edges of the net the ObservedCompiler leaves *)
+  Lemma dep_edges_g1 e : In e (dep_edges src) <-> In e (c_edges g1).
+  Proof.
+    unfold dep_edges. rewrite (g1_edges _ _ _ Hco), !in_app_iff, twin_edges_char, (TW_char _ _ (wf_nodup _ Hwf)).
+    reflexivity.
+  Qed.
+
+  (** clause 1: the coded rejection rule *)
+  Lemma not_stochastic_observed uses :
+    check_stochastic src g1 uses = Ok tt ->
+    (forall n st, lookup n (s_nodes src) = Some st -> s_observable st = false -> s_uses_observed st = true -> In n uses) ->
+    stochastic_observed src = false.
+  Proof.
+    intros Hchk Huses. apply not_true_iff_false. intros H. unfold stochastic_observed in H.
+    apply existsb_exists in H. destruct H as [[n st] [Hin H]]. cbn [fst snd] in H.
+    apply andb_true_iff in H. destruct H as [H Hex]. apply andb_true_iff in H. destruct H as [Hu Ho].
+    apply negb_true_iff in Ho.
+    apply existsb_exists in Hex. destruct Hex as [a [Ha Hst]].
+    pose proof (In_pair_lookup _ _ _ (wf_nodup _ Hwf) Hin) as Hl.
+    assert (Hfl : flagged st = true) by (unfold flagged; now rewrite Hu, orb_true_r).
+    destruct (ancestors_incl_head (twin_edges src ++ s_edges src) (observed_name n)) as [t2 E2].
+    destruct (ancestors_incl_head (c_edges g1) (observed_name n)) as [t1 E1].
+    assert (Ha1 : In a (ancestors_incl (c_edges g1) [observed_name n])).
+    { apply (ancestors_incl_ext (twin_edges src ++ s_edges src)).
+      - intros e. rewrite <- dep_edges_g1. unfold dep_edges. rewrite !in_app_iff. tauto.
+      - rewrite E2 in Ha |- *. right. exact Ha. }
+    pose proof (check_stochastic_sound src g1 uses Hchk n a (Huses n st Hl Ho Hu)) as Hc.
+    rewrite E1 in Ha1, Hc. destruct Ha1 as [<-|Ha1].
+    - unfold flag, sstate_of in Hst. rewrite (twin_lookup_none _ _ _ Hcn Hco n st Hl Hfl) in Hst. discriminate.
+    - specialize (Hc Ha1). unfold is_stochastic in Hc. unfold flag, sstate_of in Hst. congruence.
+  Qed.
+
+  (** clause 3: the outputs of the loaded net *)
+  Lemma lg_outputs : c_outputs lg = outs.
+  Proof. rewrite load_outputs, compile_reduce_fold, reduce_fold_outputs, G4of_outputs. exact Hout1. Qed.
+
+  (** source nodes and twins of flagged nodes *)
+  Definition Nd (x : name) : Prop :=
+    (exists st, lookup x (s_nodes src) = Some st)
+    \/ (exists m st, x = observed_name m /\ lookup m (s_nodes src) = Some st /\ flagged st = true).
+
+  Lemma Nd_in_g1 x : Nd x -> has x (c_nodes g1) = true.
+  Proof.
+    intros [[st Hl] | [m [st [-> [Hl Hfl]]]]].
+    - destruct (g1_src_lookup _ _ _ Hcn Hco x st Hl) as [c0 [Hc0 _]]. unfold has. now rewrite Hc0.
+    - destruct (co_twin _ _ _ _ Hco m st (t_in _ _ _ Hl) Hl Hfl) as [H _]. unfold has. now rewrite H.
+  Qed.
+
+  Lemma g1_edge_Nd e : In e (c_edges g1) -> Nd (e_src e) /\ Nd (e_dst e).
+  Proof.
+    rewrite (g1_edges _ _ _ Hco). intros He. apply in_app_iff in He. destruct He as [He|He].
+    - destruct (wf_edges _ Hwf e He) as [H1 H2]. apply has_lookup in H1, H2. split; left; assumption.
+    - apply in_flat_map in He. destruct He as [n [Hn He]]. apply twin_edges_in in He.
+      destruct He as [st [Hl [Hfl [->|[u [p [Hup ->]]]]]]]; unfold e_src, e_dst; cbn [fst snd].
+      + split; [right; exists n, st; auto | left; eauto].
+      + split; [|right; exists n, st; auto].
+        unfold link. destruct (flag src s_observable u) eqn:Fu.
+        * destruct (flag_true _ _ _ Fu) as [su [Hlu Hou]]. right. exists u, su. repeat split; auto.
+          unfold flagged. now rewrite Hou.
+        * left. apply has_lookup. eapply parent_is_node; eauto.
+  Qed.
+
+  Lemma eclosed_g1 : eclosed g1.
+  Proof. intros e He. destruct (g1_edge_Nd e He). split; now apply Nd_in_g1. Qed.
+
+  Lemma eclosed_g4 : eclosed g4.
+  Proof. unfold G4of. rewrite !compile_instruction_fold. repeat apply eclosed_instr_fold. exact eclosed_g1. Qed.
+
+  Lemma eclosed_lg : eclosed lg.
+  Proof.
+    intros e He. rewrite (lg_edges src W g1) in He. rewrite !has_load.
+    revert e He. rewrite compile_reduce_fold. apply eclosed_reduce_fold. exact eclosed_g4.
+  Qed.
+
+  Lemma g4_edge_cases e : In e (c_edges g4) -> In e (c_edges g1) \/ In (e_src e) inames.
+  Proof.
+    rewrite (g4_edges _ _ _ Hwf Hco), <- (g1_edges _ _ _ Hco), !in_app_iff.
+    intros [[[H|H]|H]|H]; [now left | right; apply instr_edges_src in H; rewrite H; simpl; tauto ..].
+  Qed.
+
+  Lemma g1_sub_g4 e : In e (c_edges g1) -> In e (c_edges g4).
+  Proof. rewrite (g4_edges _ _ _ Hwf Hco), <- (g1_edges _ _ _ Hco), !in_app_iff. tauto. Qed.
+
+  Lemma gr_edge_sub e : In e (c_edges gr) -> In e (c_edges g4).
+  Proof. rewrite compile_reduce_fold. apply reduce_fold_edge_sub. Qed.
+
+  Lemma gr_edge_kept e : In e (c_edges g4) -> In (e_src e) keep -> In (e_dst e) keep -> In e (c_edges gr).
+  Proof.
+    intros He Hs Hd. rewrite compile_reduce_fold, G4of_outputs, Hout1.
+    apply reduce_fold_edge_kept; [now apply mem_In | now apply mem_In | exact He].
+  Qed.
+
+  Lemma gr_lookup_kept x : In x keep -> lookup x (c_nodes gr) = lookup x (c_nodes g4).
+  Proof.
+    intros Hk. rewrite compile_reduce_fold, G4of_outputs, Hout1. apply reduce_fold_lookup_kept. now apply mem_In.
+  Qed.
+
+  (** a loaded source node / twin has an output exactly when its value is [given], an operation otherwise *)
+  Lemma Nd_lg_state x c : Nd x -> lookup x (c_nodes lg) = Some c ->
+    (match c_out c with Some _ => true | None => false end) = given src W x
+    /\ (match c_op c with Some _ => true | None => false end) = negb (given src W x).
+  Proof.
+    intros [[st Hl] | [m [st [-> [Hl Hfl]]]]] Hc.
+    - destruct (lg_source_node _ _ _ _ Hwf HWnd Hcn Hco x st c Hl Hc) as [_ Hcase].
+      unfold given, has, sstate_of. rewrite Hl.
+      destruct (lookup x W) as [w|]; [subst c; split; reflexivity|]. cbn [orb].
+      destruct Hcase as [[v [H1 [_ ->]]] | [H1 [_ ->]]]; rewrite H1; split; reflexivity.
+    - destruct (lg_twin_node _ _ _ _ Hwf HWnd Hcn Hco m st c Hl Hfl Hc) as [_ Hcase].
+      unfold given, sstate_of. rewrite (twin_lookup_none _ _ _ Hcn Hco m st Hl Hfl).
+      change (has (observed_name m) W) with (match lookup (observed_name m) W with Some _ => true | None => false end).
+      destruct (lookup (observed_name m) W) as [w|]; [subst c; split; reflexivity|]. cbn [orb].
+      destruct (lookup m (s_observed src)) as [v|] eqn:Eo.
+      + destruct Hcase as [Hob ->].
+        match goal with |- context [existsb ?f ?l] => assert (E : existsb f l = true) end.
+        { apply existsb_exists. exists (m, st). split; [now apply lookup_In_pair|]. cbn [fst snd].
+          rewrite String.eqb_refl, Hob. unfold has. now rewrite Eo. }
+        rewrite E. split; reflexivity.
+      + subst c.
+        match goal with |- context [existsb ?f ?l] => assert (E : existsb f l = false) end.
+        { apply not_true_iff_false. intros E. apply existsb_exists in E. destruct E as [[m' st'] [Hin E]].
+          cbn [fst snd] in E. apply andb_true_iff in E. destruct E as [E E3]. apply andb_true_iff in E.
+          destruct E as [E1 E2]. apply String.eqb_eq in E1. apply observed_name_inj in E1. subst m'.
+          unfold has in E3. rewrite Eo in E3. discriminate. }
+        rewrite E. split; reflexivity.
+  Qed.
+
+  Lemma Nd_lg_lookup x : Nd x -> In x keep -> exists c, lookup x (c_nodes lg) = Some c.
+  Proof.
+    intros Hn Hk. apply has_lookup. rewrite has_load. unfold has.
+    rewrite (gr_lookup_kept x Hk), G4of_lookup by (now apply Nd_in_g1). exact (Nd_in_g1 x Hn).
+  Qed.
+
+  (** the executor's dependency graph lies inside the specification's cut graph *)
+  Lemma dep_of_cut e : In e (dep_of lg) -> In e cut /\ given src W (e_src e) = false /\ Nd (e_src e).
+  Proof.
+    unfold dep_of. intros He. apply filter_In in He. destruct He as [He Hb].
+    apply andb_true_iff in Hb. destruct Hb as [Hs Hd]. apply negb_true_iff in Hs, Hd.
+    destruct (eclosed_lg e He) as [H1 H2]. apply has_lookup in H1, H2.
+    destruct H1 as [cs Hcs]. destruct H2 as [cd Hcd].
+    rewrite (lg_edges src W g1) in He. apply gr_edge_sub in He.
+    destruct (g4_edge_cases e He) as [Hg1|Hi].
+    - destruct (g1_edge_Nd e Hg1) as [Ns Nd'].
+      destruct (Nd_lg_state _ _ Ns Hcs) as [A _]. destruct (Nd_lg_state _ _ Nd' Hcd) as [B _].
+      unfold has_out in Hs, Hd. rewrite Hcs in Hs. rewrite Hcd in Hd. rewrite Hs in A. rewrite Hd in B.
+      repeat split; auto. apply filter_In. split; [now apply dep_edges_g1|]. now rewrite <- B.
+    - exfalso. pose proof (lg_runtime_node src W g1 HWnd HWi _ _ Hi Hcs) as Ho.
+      unfold has_out in Hs. rewrite Hcs, Ho in Hs. discriminate.
+  Qed.
+
+  Lemma cut_sub_g4 e : In e cut -> In e (c_edges g4).
+  Proof. intros H. apply filter_In in H. destruct H as [H _]. apply g1_sub_g4. now apply dep_edges_g1. Qed.
+
+  Hypothesis Howf : outputs_wf src outs.
+
+  Lemma outs_Nd o : In o outs -> Nd o.
+  Proof.
+    intros Ho. destruct (Howf o Ho) as [H | [x [st [Hl [-> Hfl]]]]].
+    - left. now apply has_lookup.
+    - right. exists x, st. repeat split; auto. unfold flagged. destruct Hfl as [-> | ->]; [reflexivity | apply orb_true_r].
+  Qed.
+
+  (** every operation that ran is needed *)
+  Lemma log_sub_needed n :
+    has_op lg n = true -> reaches_root (dep_of lg) (needed_of lg) n -> In n (needed_ops src W outs).
+  Proof.
+    intros Hop [r [Hr Hreach]]. apply in_needed_iff in Hr. destruct Hr as [Hr Hopr]. rewrite lg_outputs in Hr.
+    unfold needed_ops. apply filter_In. split.
+    - apply ancestors_incl_iff. exists r. split; [exact Hr|]. eapply reach_incl; [|exact Hreach].
+      intros e He. now apply dep_of_cut.
+    - apply negb_true_iff. destruct (reach_inv _ _ _ Hreach) as [->|[v [p He]]].
+      + rename r into n. pose proof (outs_Nd n Hr) as Hn. unfold has_op in Hop.
+        destruct (lookup n (c_nodes lg)) as [c|] eqn:Hc; [|discriminate].
+        destruct (Nd_lg_state _ _ Hn Hc) as [_ B]. rewrite Hop in B.
+        destruct (given src W n); [discriminate | reflexivity].
+      + destruct (dep_of_cut _ He) as [_ [A _]]. exact A.
+  Qed.
+
+  (** every needed operation runs *)
+  Lemma cut_reach_dep x r : reach cut x r -> In r outs -> given src W x = false ->
+    reach (dep_of lg) x r /\ given src W r = false.
+  Proof.
+    intros H. induction H as [n | u v w p He Hvw IH]; intros Hr Hg; [split; [constructor | exact Hg]|].
+    assert (Hg4 : reach (c_edges g4) v w) by (eapply reach_incl; [|exact Hvw]; apply cut_sub_g4).
+    pose proof He as He'. apply filter_In in He'. destruct He' as [Hde Hgv]. apply negb_true_iff in Hgv.
+    unfold e_dst in Hgv. cbn [fst snd] in Hgv.
+    destruct (IH Hr Hgv) as [IH1 IH2]. split; [|exact IH2].
+    apply (reach_step _ u v w p); [|exact IH1].
+    assert (Hkv : In v keep) by (apply ancestors_incl_iff; exists w; auto).
+    assert (Hku : In u keep).
+    { apply ancestors_incl_iff. exists w. split; [exact Hr|].
+      eapply reach_step; [apply cut_sub_g4; exact He | exact Hg4]. }
+    apply dep_edges_g1 in Hde. destruct (g1_edge_Nd _ Hde) as [Nu Nv]. unfold e_src, e_dst in Nu, Nv. cbn [fst snd] in Nu, Nv.
+    destruct (Nd_lg_lookup u Nu Hku) as [cu Hcu]. destruct (Nd_lg_lookup v Nv Hkv) as [cv Hcv].
+    destruct (Nd_lg_state _ _ Nu Hcu) as [A _]. destruct (Nd_lg_state _ _ Nv Hcv) as [B _].
+    unfold dep_of. apply filter_In. split.
+    - rewrite (lg_edges src W g1). apply gr_edge_kept; [now apply g1_sub_g4 | exact Hku | exact Hkv].
+    - unfold has_out, e_src, e_dst. cbn [fst snd]. rewrite Hcu, Hcv, A, B, Hg, Hgv. reflexivity.
+  Qed.
+
+  Lemma needed_sub_log n :
+    In n (needed_ops src W outs) -> has_op lg n = true /\ reaches_root (dep_of lg) (needed_of lg) n.
+  Proof.
+    unfold needed_ops. intros H. apply filter_In in H. destruct H as [Ha Hg]. apply negb_true_iff in Hg.
+    apply ancestors_incl_iff in Ha. destruct Ha as [r [Hr Hreach]].
+    destruct (cut_reach_dep n r Hreach Hr Hg) as [Hdep Hgr].
+    assert (Hop : forall x, Nd x -> In x keep -> given src W x = false -> has_op lg x = true).
+    { intros x Nx Kx Gx. destruct (Nd_lg_lookup x Nx Kx) as [c Hc]. destruct (Nd_lg_state _ _ Nx Hc) as [_ B].
+      unfold has_op. rewrite Hc, B, Gx. reflexivity. }
+    assert (Hkr : In r keep) by (apply ancestors_incl_iff; exists r; split; [exact Hr | constructor]).
+    split.
+    - apply Hop; [ | | exact Hg].
+      + destruct (reach_inv _ _ _ Hreach) as [->|[v [p He]]]; [now apply outs_Nd|].
+        apply filter_In in He. destruct He as [He _]. apply dep_edges_g1 in He. exact (proj1 (g1_edge_Nd _ He)).
+      + apply ancestors_incl_iff. exists r. split; [exact Hr|]. eapply reach_incl; [|exact Hreach]. apply cut_sub_g4.
+    - exists r. split; [|exact Hdep]. apply in_needed_iff. rewrite lg_outputs. split; [exact Hr|].
+      apply Hop; auto. now apply outs_Nd.
+  Qed.
+End Model.
+
+(** ---- the model runs exactly the needed operations, each once ---- *)
+Theorem model_log_exact src outs W out log :
+  wfsrc src -> NoDup (map fst W) -> (forall k, In k (map fst W) -> ~ In k inames) ->
+  outputs_wf src outs ->
+  generate src outs W = Ok (out, log) ->
+  NoDup log /\ NoDup (needed_ops src W outs) /\ (forall n, In n log <-> In n (needed_ops src W outs)).
+Proof.
+  intros Hwf Hnd Hi Howf Hg. unfold generate in Hg.
+  destruct (compile src outs) as [g|] eqn:Ec; simpl in Hg; [|discriminate].
+  destruct (compile_inv2 _ _ _ Hwf Ec) as [cn [g1 [uses [Hcn [Ht [Hco [Hout1 [Hchk [Huses ->]]]]]]]]].
+  change (map (fun nv : name * value => (fst nv, Some (snd nv))) W) with (wp W) in Hg.
+  destruct (execute (load (wp W) (compile_reduce (G4of src g1))) empty_cache) as [[[out' log'] c']|] eqn:Ee;
+    simpl in Hg; [|discriminate].
+  inversion Hg; subst out' log'. clear Hg.
+  destruct (execute_sound _ _ _ _ _ CacheOK_empty Ee) as [_ [_ [Hlnd _]]].
+  pose proof (execute_log_iff _ _ _ _ Ee) as Hlog.
+  split; [exact Hlnd|]. split.
+  - unfold needed_ops. apply NoDup_filter. apply ancestors_incl_NoDup.
+  - intros n. rewrite Hlog. split.
+    + intros [A B]. exact (log_sub_needed src W outs cn g1 Hwf Hnd Hi Hcn Hco Hout1 Howf n A B).
+    + exact (needed_sub_log src W outs cn g1 Hwf Hnd Hcn Hco Hout1 Howf n).
+Qed.
+
+(** ---- the model's output passes the check [Denote.ok] ---- *)
+Theorem model_ok src outs W out log :
+  wfsrc src -> NoDup (map fst W) -> (forall k, In k (map fst W) -> ~ In k inames) ->
+  outputs_wf src outs ->
+  generate src outs W = Ok (out, log) ->
+  ok {| k_src := src; k_outputs := outs; k_with := W; k_impl := ImplOk out (op_log src log) |} = true.
+Proof.
+  intros Hwf Hnd Hi Howf Hg0.
+  destruct (model_log_exact src outs W out log Hwf Hnd Hi Howf Hg0) as [Hlnd [Hnnd Hiff]].
+  pose proof Hg0 as Hg. unfold generate in Hg.
+  destruct (compile src outs) as [g|] eqn:Ec; simpl in Hg; [|discriminate].
+  destruct (compile_inv2 _ _ _ Hwf Ec) as [cn [g1 [uses [Hcn [Ht [Hco [Hout1 [Hchk [Huses ->]]]]]]]]].
+  change (map (fun nv : name * value => (fst nv, Some (snd nv))) W) with (wp W) in Hg.
+  destruct (execute (load (wp W) (compile_reduce (G4of src g1))) empty_cache) as [[[out' log'] c']|] eqn:Ee;
+    simpl in Hg; [|discriminate].
+  inversion Hg; subst out' log'. clear Hg.
+  destruct (execute_sound _ _ _ _ _ CacheOK_empty Ee) as [_ [Hkeys _]].
+  rewrite (lg_outputs src W outs g1 Hout1) in Hkeys.
+  unfold ok. cbn [k_impl k_src k_outputs k_with].
+  rewrite (not_stochastic_observed src cn g1 Hwf Hcn Hco uses Hchk Huses). cbn [negb andb].
+  apply andb_true_iff. split; [apply andb_true_iff; split|].
+  - apply forallb_forall. intros [o v] Hin. cbn [fst snd].
+    rewrite (generate_sound src outs W out log Hwf Hnd Hi Hg0 o v Hin); [apply value_eqb_refl|].
+    apply Howf. apply dedup_names_In. apply (Permutation_in _ (sort_names_perm _)). rewrite <- Hkeys.
+    apply in_map_iff. exists (o, v). auto.
+  - apply names_eqb_eq. exact Hkeys.
+  - apply same_multiset_perm. unfold op_log. apply Permutation_flat_map.
+    apply NoDup_Permutation; assumption.
 Qed.
